@@ -68,7 +68,13 @@ func (exec *Executor) executeUnaryBoolItem(
 			return predTrue, nil
 		}
 	case ast.UnaryIsUnknown:
-		res, _ := exec.executeBoolItem(ctx, node.Operand(), value, false)
+		res, err := exec.executeBoolItem(ctx, node.Operand(), value, false)
+		if err != nil {
+			// Unknown is a result, but a done context is not: report it.
+			if cerr := ctx.Err(); cerr != nil {
+				return predUnknown, fmt.Errorf("%w: %w", ErrExecution, cerr)
+			}
+		}
 		return predFrom(res == predUnknown), nil
 	case ast.UnaryExists:
 		if exec.strictAbsenceOfErrors() {
